@@ -124,6 +124,8 @@ def gen_cases(tier):
                     if lay == "line" and n >= 2:
                         # the same tables without ';' terminators, one statement per line, no trailing newline
                         cases.append({"fam": "C", "tabs": list(tabs), "schema": sch, "layout": "line", "nosemi": True})
+                        # ... and with every table spread over several lines, '(' on the CREATE line and ')' on a line of its own
+                        cases.append({"fam": "C", "tabs": list(tabs), "schema": sch, "layout": "multi", "nosemi": True})
                     if lay == "line":
                         # the same script behind a comment line that holds a lone apostrophe (quote-aware pre-processing must not lose its bearings)
                         cases.append({"fam": "C", "tabs": list(tabs), "schema": sch, "layout": "glued", "apos": True})
